@@ -147,48 +147,53 @@ def NObj.limiter : NObj → Limiter
 /-- what became of a request -/
 inductive Fate
   | granted (n : Nat)
-  | asleep                   -- holds the lock of the last object, bucket empty: sleeps `INTERVAL`
+  | asleep                   -- holds the lock of the current object, bucket empty: sleeps `INTERVAL`
   | queued                   -- waits for the lock of a limited object
-  | noObject
 deriving Repr, DecidableEq
 
-/-- poller `p` calls `take_tokens()` on the first object of the chain `objs` (the objects from some
-index on) at clock `now`. A limited object whose lock is held makes the request wait there; a
-replaced object whose lock is free passes it on to its successor at once. -/
-def enterChain (p now : Nat) : List NObj → List NObj × Fate
-  | [] => ([], .noObject)
-  | [.unlimited b l] => ([.unlimited b l], .granted unlimitedGrant)
-  | [.limited o] =>
+/-- poller `p` calls `take_tokens()` on the **current** object (the one without a successor) at clock `now` -/
+def enterCur (p now : Nat) : NObj → NObj × Fate
+  | .unlimited b l => (.unlimited b l, .granted unlimitedGrant)
+  | .limited o =>
     match o.holder with
-    | some _ => ([.limited { o with queue := o.queue ++ [p] }], .queued)
+    | some _ => (.limited { o with queue := o.queue ++ [p] }, .queued)        -- wait for the lock
     | none =>
-      let r := Rate.poll o.lim now
-      if r.2 = 0 then ([.limited { o with lim := r.1, holder := some p }], .asleep)
-      else ([.limited { o with lim := r.1 }], .granted r.2)
-  | .unlimited b l :: rest =>
-    let r := enterChain p now rest
-    (.unlimited b l :: r.1, r.2)
-  | .limited o :: rest =>
-    match o.holder with
-    | some _ => (.limited { o with queue := o.queue ++ [p] } :: rest, .queued)
-    | none =>
-      let r := enterChain p now rest
-      (.limited o :: r.1, r.2)
+      let r := Rate.poll o.lim now                                             -- lock free: acquire and poll at once
+      if r.2 = 0 then (.limited { o with lim := r.1, holder := some p }, .asleep)
+      else (.limited { o with lim := r.1 }, .granted r.2)
 
-/-- the requests `ps` call `take_tokens()` one after the other at clock `now`; returns the grants -/
-def enterAll (now : Nat) : List Nat → List NObj → List NObj × List (Nat × Nat)
-  | [], objs => (objs, [])
-  | p :: ps, objs =>
-    let r := enterChain p now objs
-    let c := enterAll now ps r.1
-    match r.2 with
-    | .granted n => (c.1, (p, n) :: c.2)
-    | _ => (c.1, c.2)
+/-- poller `p` calls `take_tokens()` on the first of the replaced objects `olds` (in order of creation; their chain of
+successors ends in the current object `cur`). A limited object whose lock is held makes the request wait there; a replaced
+object whose lock is free passes it on to its successor at once. -/
+def enterChain (p now : Nat) : List NObj → NObj → List NObj × NObj × Fate
+  | [], cur => let r := enterCur p now cur; ([], r.1, r.2)
+  | .unlimited b l :: rest, cur =>
+    let r := enterChain p now rest cur
+    (.unlimited b l :: r.1, r.2.1, r.2.2)
+  | .limited o :: rest, cur =>
+    match o.holder with
+    | some _ => (.limited { o with queue := o.queue ++ [p] } :: rest, cur, .queued)
+    | none =>
+      let r := enterChain p now rest cur
+      (.limited o :: r.1, r.2.1, r.2.2)
+
+/-- the requests `ps` call `take_tokens()` one after the other at clock `now`; returns the grants in order -/
+def enterAll (now : Nat) : List Nat → List NObj → NObj → List NObj × NObj × List (Nat × Nat)
+  | [], olds, cur => (olds, cur, [])
+  | p :: ps, olds, cur =>
+    let r := enterChain p now olds cur
+    let c := enterAll now ps r.1 r.2.1
+    match r.2.2 with
+    | .granted n => (c.1, c.2.1, (p, n) :: c.2.2)
+    | _ => c
 
 structure Net where
-  objs : List NObj             -- every limiter object created so far; index = identity, last = current
+  olds : List NObj             -- replaced limiter objects, in order of creation (index = identity)
+  cur : NObj                   -- the object connections are pointed at; identity `olds.length`
   now : Nat
 deriving Repr
+
+def Net.objs (n : Net) : List NObj := n.olds ++ [n.cur]
 
 /-- where a pending request is: (object index, is it the lock holder) -/
 def findPending (pid : Nat) : List NObj → Nat → Option (Nat × Bool)
@@ -199,44 +204,46 @@ def findPending (pid : Nat) : List NObj → Nat → Option (Nat × Bool)
     else if o.queue.contains pid then some (i, false)
     else findPending pid rest (i + 1)
 
-/-- the sleep of the holder of object `i` is over -/
-def wakeHolder (now : Nat) (i : Nat) (objs : List NObj) : List NObj × List (Nat × Nat) :=
-  match objs[i]? with
-  | some (.limited o) =>
-    if i + 1 = objs.length then
-      -- current object: poll; on a grant the lock goes down the queue while polls succeed
-      let r := o.holderPoll now
-      (objs.set i (.limited r.1), r.2.map (·, minBucket))
-    else
-      -- replaced object: holder and queue move on to the successor, in this order
-      let movers := o.holder.toList ++ o.queue
-      let r := enterAll now movers (objs.drop (i + 1))
-      (objs.take i ++ [.limited { o with holder := none, queue := [] }] ++ r.1, r.2)
-  | _ => (objs, [])
+/-- the sleep of the holder of the **current** object is over: poll; on a grant the lock goes down the queue while
+polls succeed -/
+def wakeCur (now : Nat) : NObj → NObj × List (Nat × Nat)
+  | .limited o => let r := o.holderPoll now; (.limited r.1, r.2.map (·, minBucket))
+  | c => (c, [])
 
-/-- clock += dt, then poller `pid` is stepped: if it has no request pending it calls
-`take_tokens()` on the current (last) object; if it is asleep as a lock holder its sleep ends; if it
-waits for a lock nothing happens. Returns the grants made in this step, in order. -/
+/-- the sleep of the holder of the **replaced** object `olds[i]` is over: holder and queue move on to the successor, in
+this order, and queue up there like new requests -/
+def wakeOld (now i : Nat) (olds : List NObj) (cur : NObj) : List NObj × NObj × List (Nat × Nat) :=
+  match olds[i]? with
+  | some (.limited o) =>
+    let movers := o.holder.toList ++ o.queue
+    let r := enterAll now movers (olds.drop (i + 1)) cur
+    (olds.take i ++ [.limited { o with holder := none, queue := [] }] ++ r.1, r.2.1, r.2.2)
+  | _ => (olds, cur, [])
+
+/-- clock += dt, then poller `pid` is stepped: if it has no request pending it calls `take_tokens()` on the current
+object; if it is asleep as a lock holder its sleep ends; if it waits for a lock nothing happens. Returns the grants
+made in this step, in order. -/
 def Net.poll (n : Net) (pid dt : Nat) : Net × List (Nat × Nat) :=
   let now := n.now + dt
   match findPending pid n.objs 0 with
   | some (i, true) =>
-    let r := wakeHolder now i n.objs
-    ({ objs := r.1, now := now }, r.2)
+    if i < n.olds.length then
+      let r := wakeOld now i n.olds n.cur
+      ({ olds := r.1, cur := r.2.1, now := now }, r.2.2)
+    else
+      let r := wakeCur now n.cur
+      ({ n with cur := r.1, now := now }, r.2)
   | some (_, false) => ({ n with now := now }, [])
   | none =>
-    let k := n.objs.length - 1
-    let r := enterAll now [pid] (n.objs.drop k)
-    ({ objs := n.objs.take k ++ r.1, now := now }, r.2)
+    let r := enterCur pid now n.cur
+    ({ n with cur := r.1, now := now }, match r.2 with | .granted g => [(pid, g)] | _ => [])
 
+/-- `set_*_speed_limit(kbps)`: a new object takes over tokens and clock; the old one becomes a replaced object -/
 def Net.setLimit (n : Net) (kbps : Nat) : Net :=
-  match n.objs.getLast? with
-  | none => n
-  | some o =>
-    let fresh : NObj := match Rate.setLimit o.limiter kbps with
-      | .unlimited b l => .unlimited b l
-      | .limited l => .limited { lim := l, holder := none, queue := [] }
-    { n with objs := n.objs ++ [fresh] }
+  let fresh : NObj := match Rate.setLimit n.cur.limiter kbps with
+    | .unlimited b l => .unlimited b l
+    | .limited l => .limited { lim := l, holder := none, queue := [] }
+  { n with olds := n.olds ++ [n.cur], cur := fresh }
 
 /-! ### Bytes follow grants — the chunk loops of `send_file` / `receive_file` (connection.py)
 
